@@ -819,3 +819,320 @@ func ruleRegisteredMemberIsThisCall(c *eng.Ctx) {
 		c.Check(w == nil, "a successful group subscription registers this call's "+fld, p.Pos(fn.Pos()), "every successful return with a group has stored groupMember."+fld, "partition.Subscribe can succeed for a group without storing "+fld+" of the registered member ("+w.String()+"): the record keeps what an earlier subscriber put there — with the epoch stale, a member of an older group epoch is admitted after a hand-over and cancels the current one")
 	}
 }
+
+// ruleReverseScanRecoversFromDeleted (R08.6 extension, F76): when the index of the segment a reverse scan is in was closed
+// under it, the scan answers ErrSegmentReplaced — "re-position yourself" — exactly when the segment was replaced by
+// compaction OR deleted by retention (reach condition over the two predicates); the forward path does the same in ReadAt.
+func ruleReverseScanRecoversFromDeleted(c *eng.Ctx) {
+	fn := c.Fn(cl + "(*reverseSegmentScanner).Scan")
+	if fn == nil {
+		return
+	}
+	isRep := eng.Global(cl + "ErrSegmentReplaced")
+	var site ssa.Instruction
+	eng.Instrs(fn, func(in ssa.Instruction) {
+		switch x := in.(type) {
+		case *ssa.Return:
+			for _, r := range x.Results {
+				if isRep(r) {
+					site = in
+				}
+			}
+		case *ssa.Store:
+			if isRep(x.Val) {
+				site = in
+			}
+		}
+	})
+	if site == nil {
+		// the sentinel is usually merged into err by a phi: take the block in which the load of the sentinel sits
+		eng.Instrs(fn, func(in ssa.Instruction) {
+			if u, ok := in.(*ssa.UnOp); ok && isRep(u) {
+				site = in
+			}
+		})
+	}
+	if site == nil {
+		c.Unresolved("ErrSegmentReplaced in reverseSegmentScanner.Scan")
+		return
+	}
+	specs := []eng.AtomSpec{
+		{A: eng.Call(-1, cl+"segment.IsReplaced")},
+		{A: eng.Call(-1, cl+"segment.IsDeleted")},
+	}
+	t, okT := eng.ReachTable(fn, site, specs)
+	ok := okT && eng.TableIs(t, func(bit func(int) bool) bool { return bit(0) || bit(1) })
+	c.Check(ok, "a reverse scan of a segment that was replaced or deleted asks the reader to re-position", c.Pos(site), "ErrSegmentReplaced exactly for IsReplaced() ∨ IsDeleted() (behind err == ErrSegmentClosed)", "reverseSegmentScanner.Scan turns a closed index into ErrSegmentReplaced for compaction only: a reverse subscription that steps into a segment retention has removed ends with Unknown `segment has been closed` instead of ResourceExhausted (a cursor fetch fails instead of answering)")
+}
+
+// ruleTruncateDeletesNewestFirst (R05.7 extension, F77): Truncate removes the segments behind the truncation point from the
+// newest end, so that whatever is left after a crash or a failed Delete is a contiguous prefix of the log (the mirror of
+// retention, which removes from the oldest end).
+func ruleTruncateDeletesNewestFirst(c *eng.Ctx) {
+	p := c.P
+	fn := c.Fn(cl + "(*commitLog).Truncate")
+	if fn == nil {
+		return
+	}
+	segF := p.Field(clPkg, "commitLog", "segments")
+	// the Delete call whose receiver is l.segments[i] with i a loop counter
+	ok, found, where := false, false, ""
+	for _, d := range eng.CallsIn(fn, cl+"segment.Delete") {
+		recv := d.Common().Args[0]
+		ia := indexOfLoad(recv)
+		if ia == nil || !eng.Load(segF, nil)(ia.X) {
+			continue
+		}
+		phi, isPhi := ia.Index.(*ssa.Phi)
+		if !isPhi {
+			continue
+		}
+		found = true
+		where = c.Pos(d.(ssa.Instruction))
+		// the counter is stepped by −1 (and starts at len−1)
+		for _, e := range phi.Edges {
+			if bo, isB := e.(*ssa.BinOp); isB && bo.X == ssa.Value(phi) {
+				if (bo.Op == token.SUB && eng.IntConst(1)(bo.Y)) || (bo.Op == token.ADD && eng.IntConst(-1)(bo.Y)) {
+					ok = true
+				}
+			}
+		}
+	}
+	if !found {
+		c.Unresolved("the loop that deletes the segments behind the truncation point in Truncate")
+		return
+	}
+	c.Check(ok, "Truncate removes the later segments newest first", where, "for i := len(l.segments)-1; i > idx; i--", "Truncate deletes the segments behind the truncation point oldest first: a crash (or a failed Delete) part-way leaves the newer ones on disk behind a hole — the reopened log has a gap, and its epoch history names an epoch with no message left")
+}
+
+// ruleSnapshotSkipsTombstonedStreams (R06.6 extension, F78): a stream deleted by an entry replayed during recovery is only
+// tombstoned until recovery ends; the tombstone is not part of a snapshot. Snapshot therefore leaves such a stream out — the
+// delete that removed it is compacted away with the log, and a snapshot that lists it brings it back on restore.
+func ruleSnapshotSkipsTombstonedStreams(c *eng.Ctx) {
+	p := c.P
+	fn := c.Fn("server.(*Server).Snapshot")
+	if fn == nil {
+		return
+	}
+	tomb := eng.BoolEdges(fn, eng.Call(-1, "server.stream.IsTombstoned"), false)
+	// every store of a *proto.Stream into the snapshot's stream list (indexed store or append) is behind !IsTombstoned()
+	n, ok, where := 0, len(tomb) > 0, "no test of IsTombstoned in Snapshot"
+	isProtoStream := func(v ssa.Value) bool {
+		return strings.HasSuffix(v.Type().String(), "protocol.Stream")
+	}
+	eng.Instrs(fn, func(in ssa.Instruction) {
+		var val ssa.Value
+		switch x := in.(type) {
+		case *ssa.Store:
+			if _, isIA := x.Addr.(*ssa.IndexAddr); isIA && isProtoStream(x.Val) {
+				val = x.Val
+			}
+		}
+		if val == nil {
+			return
+		}
+		// skip the stores that build the variadic argument of an append of something else
+		n++
+		if g, w := eng.GuardedBy(fn, in, tomb); !g && len(tomb) > 0 {
+			ok, where = false, c.Pos(in)+" (path "+w.String()+")"
+		}
+	})
+	if n == 0 {
+		c.Unresolved("stores of stream records into the snapshot in Snapshot")
+		return
+	}
+	c.Check(ok, "a snapshot leaves tombstoned streams out", p.Pos(fn.Pos()), "a stream enters the snapshot only behind !stream.IsTombstoned()", "Snapshot records a stream without asking whether it is tombstoned ("+where+"): a snapshot taken while the log is being replayed lists a stream whose deletion was already applied; the delete is compacted away with the log, and restoring the snapshot brings the stream back, in the metadata and on disk")
+}
+
+// ruleEmptySubscriberHeapIsDropped (R12.5 extension, F79): the per-stream subscriber table of a group is a function of its
+// current members — exactly what a group rebuilt from a snapshot has. When the last subscriber of a stream leaves, the
+// (empty) entry is removed; a leftover entry makes a later stream deletion advance the group epoch on this server and not
+// on a restored one.
+func ruleEmptySubscriberHeapIsDropped(c *eng.Ctx) {
+	p := c.P
+	fn := c.Fn("server.(*consumerGroup).removeConsumer")
+	if fn == nil {
+		return
+	}
+	subF := p.Field("server", "consumerGroup", "subscribers")
+	deletes := false
+	for _, g := range append([]*ssa.Function{fn}, fn.AnonFuncs...) {
+		empty := eng.EdgesWhere(g, func(a eng.AtomView) bool {
+			isLen := func(v ssa.Value) bool {
+				call := eng.AsCall(eng.Strip(v))
+				if call == nil {
+					return false
+				}
+				if b, ok := call.Call.Value.(*ssa.Builtin); ok && b.Name() == "len" {
+					return true
+				}
+				return strings.HasSuffix(eng.CalleeRef(&call.Call), "consumerHeap.Len")
+			}
+			return a.RelHolds(isLen, eng.IntConst(0), eng.EQ)
+		})
+		if len(empty) == 0 {
+			continue
+		}
+		q := &eng.PathQuery{Fn: g, FromEdges: empty, Target: func(x ssa.Instruction) bool {
+			call, ok := x.(*ssa.Call)
+			if !ok || !isBuiltinCall(call, "delete") || len(call.Call.Args) < 1 {
+				return false
+			}
+			return eng.Load(subF, nil)(call.Call.Args[0])
+		}}
+		if q.Find() != nil {
+			deletes = true
+		}
+	}
+	c.Check(deletes, "a stream's subscriber entry goes when its last subscriber leaves", p.Pos(fn.Pos()), "len(*subscribers) == 0 → delete(c.subscribers, stream)", "removeConsumer leaves an empty subscriber heap behind when the last subscriber of a stream leaves: the entry is not part of a snapshot, so a later deletion of that stream advances the group epoch on a server that saw the member leave and not on one restored from a snapshot — the replicas disagree on the epoch FetchConsumerGroupAssignments checks")
+}
+
+// ruleEpochQueryTellsNotFoundFromMinusOne (R02.4 extension, F80): the start offset of an epoch can be −1 (a leader elected on
+// an empty log), so "no later epoch" cannot be encoded as −1 in the answer the log gives to a follower's epoch query. The
+// fall-back to the log end in commitLog.LastOffsetForLeaderEpoch is taken on a found/not-found flag, not on offset == −1.
+func ruleEpochQueryTellsNotFoundFromMinusOne(c *eng.Ctx) {
+	p := c.P
+	fn := c.Fn(cl + "(*commitLog).LastOffsetForLeaderEpoch")
+	if fn == nil {
+		return
+	}
+	bySentinel := eng.EdgesWhere(fn, func(a eng.AtomView) bool {
+		return a.RelHolds(eng.AnyV, eng.IntConst(-1), eng.EQ) || a.RelHolds(eng.AnyV, eng.IntConst(-1), eng.NE)
+	})
+	byFlag := false
+	for _, blk := range fn.Blocks {
+		if len(blk.Instrs) == 0 {
+			continue
+		}
+		iff, ok := blk.Instrs[len(blk.Instrs)-1].(*ssa.If)
+		if !ok {
+			continue
+		}
+		cond, _ := eng.CondPolarity(iff.Cond)
+		if e, isE := cond.(*ssa.Extract); isE && e.Index == 1 {
+			if call := eng.AsCall(e.Tuple); call != nil && strings.Contains(eng.CalleeRef(&call.Call), "leaderEpochCache.") {
+				byFlag = true
+			}
+		}
+	}
+	c.Check(byFlag && len(bySentinel) == 0, "the log end is answered only when no later epoch exists", p.Pos(fn.Pos()), "the fall-back is taken on the cache's found flag; −1 is a legitimate start offset (a leader elected on an empty log)", "commitLog.LastOffsetForLeaderEpoch decides `no later epoch` by comparing the answer with −1: a leader elected on an empty log recorded its epoch at −1, so for the previous epoch it answers its log end instead of −1 — the returning old leader truncates nothing and keeps different messages at the same offsets below the high watermark")
+}
+
+// ruleClearEarliestStaysInsideTheLog (R02.8 extension, F81): after a cleaning pass the epoch history is trimmed at the oldest
+// retained offset — but never beyond the newest offset: on a log retention has emptied, the base offset of the remaining
+// segment is one past the newest offset, and an epoch boundary moved there makes the next leader's NewLeaderEpoch (which
+// records at the newest offset) be refused.
+func ruleClearEarliestStaysInsideTheLog(c *eng.Ctx) {
+	p := c.P
+	fn := c.Fn(cl + "(*commitLog).Clean")
+	if fn == nil {
+		return
+	}
+	calls := eng.CallsIn(fn, cl+"leaderEpochCache.ClearEarliest")
+	if len(calls) == 0 {
+		c.Unresolved("ClearEarliest in Clean")
+		return
+	}
+	for _, cs := range calls {
+		arg := cs.Common().Args[len(cs.Common().Args)-1]
+		// the argument is min(base offset, newest offset): a phi / a value one of whose sources is NewestOffset()
+		usesNewest := false
+		var walk func(v ssa.Value, d int)
+		walk = func(v ssa.Value, d int) {
+			if d > 4 {
+				return
+			}
+			v = eng.Strip(v)
+			if call := eng.AsCall(v); call != nil && strings.HasSuffix(eng.CalleeRef(&call.Call), "commitLog.NewestOffset") {
+				usesNewest = true
+			}
+			if ph, ok := v.(*ssa.Phi); ok {
+				for _, e := range ph.Edges {
+					walk(e, d+1)
+				}
+			}
+			if call := eng.AsCall(v); call != nil && isBuiltinCall(call, "min") {
+				for _, a := range call.Call.Args {
+					walk(a, d+1)
+				}
+			}
+		}
+		walk(arg, 0)
+		c.Check(usesNewest, "the epoch history is not trimmed beyond the newest offset", c.Pos(cs.(ssa.Instruction)), "ClearEarliest(min(oldest base offset, newest offset))", "Clean trims the leader epoch history at the base offset of the oldest segment whatever the log holds: on a log that retention has emptied that is one past the newest offset, the next elected leader's epoch record (at the newest offset) is refused with a warning, its epoch is learnt one message late, and a returning old leader keeps a divergent message below the high watermark")
+	}
+	_ = p
+}
+
+// ruleStopOnAnEmptiedLogEnds (R10.10, F82): retention can remove every message; the log then has a newest offset but no
+// oldest one. A forward subscription with a stop position that is not past the end has nothing left to read and nothing to
+// wait for: Subscribe ends it with ResourceExhausted instead of creating a reader that parks until the next publish.
+func ruleStopOnAnEmptiedLogEnds(c *eng.Ctx) {
+	p := c.P
+	fn := c.Fn("server.(*partition).Subscribe")
+	if fn == nil {
+		return
+	}
+	emptied := eng.EdgesWhere(fn, func(a eng.AtomView) bool {
+		return a.RelHolds(eng.Call(-1, cl+"CommitLog.OldestOffset"), eng.IntConst(-1), eng.EQ)
+	})
+	ok := false
+	if len(emptied) > 0 {
+		q := &eng.PathQuery{Fn: fn, FromEdges: emptied, Target: func(x ssa.Instruction) bool {
+			call, isCall := x.(*ssa.Call)
+			if !isCall || !strings.HasSuffix(eng.CalleeRef(&call.Call), "status.New") || len(call.Call.Args) == 0 {
+				return false
+			}
+			k, isK := eng.Strip(call.Call.Args[0]).(*ssa.Const)
+			return isK && k.Value != nil && k.Value.String() == "8" // codes.ResourceExhausted
+		}, CutInstr: eng.IsCallTo(cl+"CommitLog.NewReader", cl+"CommitLog.NewReverseReader", "server.partition.newSubscribeLoop")}
+		ok = q.Find() != nil
+	}
+	c.Check(ok, "a stop position on a log emptied by retention ends the subscription", p.Pos(fn.Pos()), "OldestOffset() == -1 (with a stop offset inside the log) → ResourceExhausted before a reader is created", "Subscribe creates a reader for a forward subscription with a stop position although retention has removed every message (OldestOffset() == -1 is never looked at): the reader parks until the next publish, and a subscription that should end at once hangs")
+}
+
+// ruleAckBelongsToThePublishedStream (R04.8, F83): every stream attached to a NATS subject stores a message published to it
+// and acknowledges it on the message's ack inbox. The ack that completes a publish TO A STREAM is that stream's: publishSync
+// returns an ack only when it names the stream (or no stream was named — PublishToSubject), and the async session forwards an
+// ack only when it arrived on the inbox that belongs to its stream.
+func ruleAckBelongsToThePublishedStream(c *eng.Ctx) {
+	p := c.P
+	if fn := c.Fn("server.(*apiServer).publishSync"); fn != nil {
+		mine := eng.EdgesWhere(fn, func(a eng.AtomView) bool {
+			return a.RelHolds(eng.LoadNamed("Stream", nil), eng.Param("stream"), eng.EQ) || a.RelHolds(eng.Param("stream"), eng.StrConst(""), eng.EQ)
+		})
+		ok, n, where := len(mine) > 0, 0, "no comparison of the ack's Stream with the stream published to"
+		for _, r := range eng.Returns(fn) {
+			rv := eng.RetVals(r)
+			if len(rv) != 2 || !eng.NilConst(rv[1]) || eng.NilConst(rv[0]) {
+				continue
+			}
+			n++
+			if g, w := eng.GuardedBy(fn, r, mine); !g && len(mine) > 0 {
+				ok, where = false, c.Pos(r)+" (path "+w.String()+")"
+			}
+		}
+		c.Check(ok && n > 0, "a synchronous publish to a stream is completed by that stream's ack", p.Pos(fn.Pos()), "publishSync returns an ack only behind ack.Stream == stream (or stream == \"\")", "publishSync returns the first ack that arrives on the inbox ("+where+"): another stream attached to the same NATS subject acknowledges the message too, so a publish with AckPolicy ALL to a stream that cannot commit (in-sync set below its minimum) is answered with the other stream's positive ack")
+	}
+	if fn := c.Fn("server.(*publishAsyncSession).dispatchAcks"); fn != nil {
+		// the handler (closure or method) compares the subject the ack arrived on with something derived from ack.Stream
+		ok := false
+		for _, g := range moduleReach(c, fn, 2) {
+			if ir.Outermost(g) != fn && !strings.Contains(ir.FuncKey(g), "publishAsyncSession") {
+				continue
+			}
+			if eng.CmpExists(g, eng.LoadNamed("Subject", nil), eng.AnyV) {
+				eng.Instrs(g, func(in ssa.Instruction) {
+					if f, _ := eng.FieldRead(valueOf(in)); f != nil && f.Name() == "Stream" {
+						ok = true
+					}
+				})
+			}
+		}
+		c.Check(ok, "an asynchronous publish is completed by its own stream's ack", p.Pos(fn.Pos()), "the session drops an ack that did not arrive on the inbox of ack.Stream", "the async session forwards every ack that carries a known correlation id: the ack of another stream on the same subject completes the publish")
+	}
+}
+
+func valueOf(in ssa.Instruction) ssa.Value {
+	v, _ := in.(ssa.Value)
+	return v
+}
